@@ -68,6 +68,9 @@ def run(ctx):
     ctx.attempt(r611, ctx, rep)
     rep.rule('R6.14', 'a pair of groups with equal keys yields their cross product: every row emitted for it is produced inside a loop over the left group and a loop over the right group')
     ctx.attempt(r614, ctx, rep)
+    from .common import check_selector_truth as _seltruth
+    rep.rule('R6.15', 'a key selector (name or position; 0 and \'\' are valid) is never tested for truth')
+    ctx.floor('selector_functions', ctx.attempt(_seltruth, ctx, rep, 'R6.15', ctx.functions(['petl.transform.joins'])) or 0, 2)
     rep.rule('R6.13', 'the inputs of the merges are sorted ascending: no sort applied in a join constructor is given a reverse flag')
     ctx.attempt(r613, ctx, rep)
     from .common import check_side_mismatches as _sides
@@ -291,6 +294,96 @@ def _canon_block(stmts, mirror=False):
     return out
 
 
+def _mirror_by_outcome(ctx, fn, node, loops):
+    """The merge step as a function of the comparison outcome, whatever its spelling (arms in any order, a three-way
+    comparison helper, decide-then-act with flags): the effect sequences of one pass of the loop under
+    "left key < right key" must be the l<->r mirror images of those under "left key > right key".
+    Returns (ok, difference) or None when the loop / the comparison is not recognised."""
+    from ..ladder import paths
+    if not loops:
+        return None
+    loop = loops[0]
+    mod = fn.module
+    # the two compared names: an ordering comparison of two names in the loop, or inside a module-level helper that is
+    # called with two names
+    pair = None
+    helper = {}
+    for x in ast.walk(loop):
+        if isinstance(x, ast.Compare) and len(x.ops) == 1 and isinstance(x.ops[0], (ast.Lt, ast.Gt)) and \
+                isinstance(x.left, ast.Name) and isinstance(x.comparators[0], ast.Name):
+            pair = (x.left.id, x.comparators[0].id) if isinstance(x.ops[0], ast.Lt) else (x.comparators[0].id, x.left.id)
+            break
+    if pair is None:
+        for x in ast.walk(loop):
+            allfns = dict(getattr(mod, 'inlined_away', {}))
+            allfns.update(mod.functions)
+            if isinstance(x, ast.Call) and isinstance(x.func, ast.Name) and x.func.id in allfns and \
+                    len(x.args) == 2 and all(isinstance(a, ast.Name) for a in x.args) and not x.keywords:
+                g = allfns[x.func.id]
+                if len(g.posparams) == 2 and any(isinstance(y, ast.Compare) for y in ast.walk(g.node)):
+                    pair = (x.args[0].id, x.args[1].id)
+                    helper[x.func.id] = g
+                    break
+    if pair is None:
+        return None
+    a, b = pair
+
+    def call_value(call, val):
+        if isinstance(call.func, ast.Name) and call.func.id in helper and [norm(z) for z in call.args] == [a, b]:
+            g = helper[call.func.id]
+            pa, pb = g.posparams
+            v2 = {}
+            for k, v in val.items():
+                v2[k.replace(a, pa).replace(b, pb)] = v
+            rets = set()
+            for pth in paths(g.node.body, v2, track=True):
+                if pth.kind != 'return' or pth.node.value is None or pth.free:
+                    return None
+                if not isinstance(pth.node.value, (ast.Constant, ast.UnaryOp)):
+                    return None
+                rets.add(norm(pth.node.value))
+            if len(rets) == 1:
+                try:
+                    return (ast.literal_eval(list(rets)[0]),)
+                except Exception:
+                    return None
+        return None
+
+    def outcome(lt, gt):
+        val = {'%s < %s' % (a, b): lt, '%s > %s' % (a, b): gt, '%s > %s' % (b, a): lt, '%s < %s' % (b, a): gt,
+               '%s == %s' % (a, b): not lt and not gt, '%s == %s' % (b, a): not lt and not gt}
+        out = set()
+        for pth in paths(loop.body, val, track=True, call_value=call_value, limit=128):
+            eff = []
+            for st in pth.effects:
+                # statements that only set flags / codes are not actions
+                if isinstance(st, ast.Assign) and not any(isinstance(z, (ast.Call, ast.Yield)) for z in ast.walk(st.value)) and \
+                        all(isinstance(z, (ast.Constant, ast.Tuple, ast.Name, ast.UnaryOp, ast.USub, ast.Load, ast.Store, ast.Compare, ast.Lt, ast.Gt, ast.Eq))
+                            for z in ast.walk(st.value)) and not isinstance(st.value, ast.Name):
+                    continue
+                if isinstance(st, ast.Assign) and isinstance(st.value, ast.Call) and isinstance(st.value.func, ast.Name) and \
+                        st.value.func.id in helper:
+                    continue
+                eff.append(st)
+            if pth.free:
+                # a test the outcome and the flags do not decide: keep it in the signature
+                eff = eff + [ast.Expr(value=ast.Tuple(elts=[copy.deepcopy(t), ast.Constant(value=bool(o))], ctx=ast.Load()))
+                             for t, o in pth.free]
+            out.add((pth.kind, tuple(eff)))
+        return out
+    lt = outcome(True, False)
+    gt = outcome(False, True)
+    if not lt or not gt:
+        return None
+    sig_lt = sorted((k, tuple(_canon_block(list(e)))) for k, e in lt)
+    sig_gt_m = sorted((k, tuple(_canon_block(list(e), mirror=True))) for k, e in gt)
+    if sig_lt == sig_gt_m:
+        return True, ''
+    da = [x for x in sig_gt_m if x not in sig_lt]
+    db = [x for x in sig_lt if x not in sig_gt_m]
+    return False, ' | '.join(' ; '.join(e) for _, e in (da + db)[:2])
+
+
 def r63(ctx, rep):
     fn0 = ctx.project.need_fn('petl.transform.joins:iterjoin')
     # the symmetry is a property of the merge skeleton as written: row assembly helpers (joinrows(l, None) /
@@ -314,8 +407,17 @@ def r63(ctx, rep):
             if isinstance(s, ast.If) and isinstance(s.test, ast.Compare) and len(s.orelse) == 1 and \
                     isinstance(s.orelse[0], ast.If):
                 arms = (s, s.orelse[0])
-    if arms is None:
+    sem = _mirror_by_outcome(ctx, fn0, fn.node, loops)
+    if arms is None and sem is None:
         rep.undecided('R6.3', fn, 'merge loop', 'merge loop ladder not recognised', fn.node)
+    elif arms is None:
+        if sem[0]:
+            rep.held('R6.3', fn, 'merge arms', 'what one pass does when the left key is behind mirrors what it does when the '
+                     'right key is behind (effect sequences per comparison outcome)', loops[0])
+        else:
+            rep.violated('R6.3', fn, 'merge arms', 'one pass of the merge loop with the left key behind is not the mirror image '
+                         '(l<->r) of a pass with the right key behind: %s -- one side of the join handles an unmatched group '
+                         'differently from the other' % sem[1][:300], loops[0])
     else:
         a, b = arms
         ta = _canon_block([ast.Expr(value=a.test)])[0]
@@ -324,6 +426,9 @@ def r63(ctx, rep):
         body_b_m = _canon_block(b.body, mirror=True)
         if ta == tb_m and body_a == body_b_m:
             rep.held('R6.3', fn, 'merge arms', '`%s` arm mirrors `%s` arm' % (norm(a.test), norm(b.test)), a)
+        elif sem is not None and sem[0]:
+            rep.held('R6.3', fn, 'merge arms', 'what one pass does when the left key is behind mirrors what it does when the '
+                     'right key is behind (effect sequences per comparison outcome)', a)
         else:
             diff = [x for x in body_b_m if x not in body_a] + [x for x in body_a if x not in body_b_m]
             rep.violated('R6.3', fn, 'merge arms',
